@@ -1,6 +1,8 @@
-CONSTANTS Mags = {1, 2} Pages <- PagesA Rows = {1, 24} Cids = {1, 2} Flofs = {1} FaultKinds = {"hpage", "hctrl", "rpar", "mrag"} MaxFaults = 2 MaxPk = 5
+CONSTANTS Mags = {1, 8} Pages <- PagesX Rows = {1, 24} Cids = {1, 2} Nats = {0} Flofs = {1} Progs <- ProgsA
+          HdrFaults <- HdrAll RowFaults <- RowFew PktFaults <- PktAll TripFaults = {1, 4} MaxFaults = 2 MaxPk = 4
 SPECIFICATION Spec
+VIEW mcview
 CONSTRAINT Bounded
-INVARIANTS OneVersion OnlyTransmitted
-PROPERTIES KeepsRows BadRowContained
+INVARIANTS OneVersion RollingOne OnlyTransmitted EnhNotMisplaced
+PROPERTIES KeepsRows BadRowContained AddressFaultNothing HeaderFaultOnlyAbandons
 CHECK_DEADLOCK FALSE
